@@ -237,6 +237,9 @@ Definition run_c04 (sub : N) (args : list (list N)) : list N :=
    op = [1; id; h; raw...] Start (h >= 100: Do) | [2; raw...] Indicate | [3; datagram...] Deliver
       | [4; now] collector tick at time now | [5; now] set the clock | [6; rto] SetRTO
       | [7; i1; i2; ...] the next write of each listed instance fails (65535: indications) | [8] Close
+      | [9; now] Close while the events of a collector tick at time now are in flight
+      | [10; datagram...] Close while the event of this datagram is in flight in the reader
+      | [11; id] another user of the agent registers transaction id (far deadline)
    result per operation: number of observations, then each observation (sorted by instance within
    the operation): write = [1; inst; time; len; crc]; handler invocation = [2; inst; h; result code; len; crc];
    fallback = [3; h; id; kind; len; crc]; connection closed = [4]; return = [5; code] *)
@@ -258,7 +261,11 @@ Definition res_code (r : res) : list N :=
 Definition evk_code (k : evk) : list N :=
   match k with EMsg d => [1; lenN d; crc32_fast d] | ETimeout => [2; 0; 0] | EAgentClosed => [3; 0; 0] | EStopped => [4; 0; 0] end.
 Definition retc_code (r : retc) : N :=
-  match r with CNil => 0 | CClientClosed => 1 | CTxExists => 2 | CAgentErr _ => 3 | CWriteErr => 4 | CStopErr => 5 end.
+  match r with
+  | CNil => 0 | CClientClosed => 1 | CTxExists => 2
+  | CAgentErr RExists => 2          (* the agent's ErrTransactionExists is the same error value *)
+  | CAgentErr _ => 3 | CWriteErr => 4 | CStopErr => 5
+  end.
 Definition obs_key (o : obs) : N :=
   match o with OWrite i _ _ => i | OIndWrite _ _ => 65535 | OInvoke i _ _ => i | OFallback _ _ _ => 70000 | OConnClose => 80000 | ORet _ => 90000 end.
 Definition ser_obs (o : obs) : list N :=
@@ -288,6 +295,9 @@ Definition parse_cop (f : list N) : option cop :=
   | [6; r] => Some (CSetRTO (Z.of_N r))
   | 7 :: insts => Some (CFail insts)
   | [8] => Some CClose
+  | [9; now] => Some (CTickRace (Z.of_N now))
+  | 10 :: d => Some (CDeliverRace d)
+  | [11; id] => Some (CForeign (tid_id (mk_tid id)))
   | _ => None
   end.
 Fixpoint run_client (c : client) (fs : list (list N)) : list N :=
